@@ -17,22 +17,26 @@ pub(crate) fn reflect_to_bin(
 }
 
 pub(crate) fn bin_to_reflect(data: &[u8], registry: &TypeRegistry) -> Box<dyn Reflect> {
+    try_bin_to_reflect(data, registry).unwrap()
+}
+
+/// Like `bin_to_reflect`, but returns `None` instead of panicking when the payload cannot be
+/// decoded with this registry (e.g. the sender registered a type this peer does not know).
+pub(crate) fn try_bin_to_reflect(data: &[u8], registry: &TypeRegistry) -> Option<Box<dyn Reflect>> {
     let reflect_deserializer = ReflectDeserializer::new(registry);
     let binoptions = DefaultOptions::new()
         .with_fixint_encoding()
         .allow_trailing_bytes();
     let mut bin_deser = bincode::Deserializer::from_slice(data, binoptions);
-    let data = reflect_deserializer.deserialize(&mut bin_deser).unwrap();
+    let data = reflect_deserializer.deserialize(&mut bin_deser).ok()?;
     if !data.is::<DynamicStruct>() {
-        return data;
+        return Some(data);
     }
-    let data = data.downcast::<DynamicStruct>().unwrap();
-    let type_path = data.get_represented_type_info().unwrap().type_path();
-    let registration = registry.get_with_type_path(type_path).unwrap();
-    let rfr = registry
-        .get_type_data::<ReflectFromReflect>(registration.type_id())
-        .unwrap();
-    rfr.from_reflect(&*data).unwrap()
+    let data = data.downcast::<DynamicStruct>().ok()?;
+    let type_path = data.get_represented_type_info()?.type_path();
+    let registration = registry.get_with_type_path(type_path)?;
+    let rfr = registry.get_type_data::<ReflectFromReflect>(registration.type_id())?;
+    rfr.from_reflect(&*data)
 }
 
 #[cfg(test)]
